@@ -4,9 +4,11 @@
 # breaks (and the related checks listed in RELATED), record exit code and the first violation key.
 # Writes /verif/seeded/MATRIX.md. Worktrees are removed again.
 tier=${1:-quick}; shift
-seeds=${@:-$(ls -d /verif/seeded/C*/ | xargs -n1 basename)}
+V=$(cd "$(dirname "$0")/.." && pwd)     # the checkout this script belongs to (/verif or a snapshot of it)
+seeds=${@:-$(ls -d $V/seeded/C*/ | xargs -n1 basename | sort -V)}
 declare -A RELATED=( [C01]="C14 C07" [C02]="C03 C06" [C03]="C02 C06" [C04]="C06" [C05]="C13" [C06]="C02 C03 C04" [C07]="C01" [C08]="C01 C11" [C09]="" [C10]="C01" [C11]="C08 C01" [C12]="C17" [C13]="C05" [C14]="C01" [C15]="" [C16]="" [C17]="C12" [C18]="" [C19]="" [C20]="C13" )
-out=/verif/seeded/MATRIX.md
+out=$V/seeded/MATRIX.md
+[ $# -gt 0 ] && out=$V/seeded/MATRIX.part.md     # a partial run does not overwrite the full matrix
 echo "# Seeded changes vs checks (tier $tier, /repo $(git -C /repo rev-parse --short HEAD), $(date -u +%F))" > $out
 echo >> $out
 echo "| seed | needs | own check | related checks |" >> $out
@@ -15,16 +17,16 @@ for s in $seeds; do
   prop=${s%%-*}
   wt=$(mktemp -d /tmp/pmv-sm-XXXXXX)
   git -C /repo worktree add -q --detach "$wt" HEAD || exit 3
-  if ! git -C "$wt" apply /verif/seeded/$s/patch.diff; then echo "| $s | - | PATCH DOES NOT APPLY | |" >> $out; git -C /repo worktree remove --force "$wt"; continue; fi
+  if ! git -C "$wt" apply $V/seeded/$s/patch.diff; then echo "| $s | - | PATCH DOES NOT APPLY | |" >> $out; git -C /repo worktree remove --force "$wt"; continue; fi
   res=""
   for id in $prop ${RELATED[$prop]}; do
-    o=$(cd /verif && PMV_REPO="$wt" PMV_EVIDENCE_DIR="$wt/.evidence" /venv/bin/python -m pmv.run "$id" --tier "$tier" 2>&1); rc=$?
+    o=$(cd $V && PMV_REPO="$wt" PMV_EVIDENCE_DIR="$wt/.evidence" /venv/bin/python -m pmv.run "$id" --tier "$tier" 2>&1); rc=$?
     key=$(echo "$o" | grep -A1 '^VIOLATION' | grep -o 'key=[^ ]*' | head -1 | sed 's/key=//; s/:$//')
     n=$(echo "$o" | grep -o '[0-9]* violation case' | head -1 | awk '{print $1}')
     if [ $rc -eq 1 ]; then cell="**caught** ($n cases, $key)"; elif [ $rc -eq 0 ]; then cell="silent"; else cell="inconclusive (rc=$rc)"; fi
     if [ "$id" = "$prop" ]; then own="$id: $cell"; else res="$res $id: $cell;"; fi
   done
-  needs=$(/venv/bin/python -c "import json,sys; print(json.load(open('/verif/seeded/$s/meta.json')).get('needs','')[:160].replace('|','/').replace('\n',' '))")
+  needs=$(/venv/bin/python -c "import json,sys; print(json.load(open('$V/seeded/$s/meta.json')).get('needs','')[:160].replace('|','/').replace('\n',' '))")
   echo "| $s | $needs | $own | $res |" >> $out
   echo "$s -> $own |$res"
   git -C /repo worktree remove --force "$wt"
